@@ -14,8 +14,8 @@ CLAIMS = {
             'Goroutine attribution and hang detection are runtime observations; 19-28 moments quick, up to 200 thorough.', '6 C18'),
     'C19': ('tla-status', 'spec/Status.tla (the status arithmetic driven by its real trigger flows) model-checked: Monotone, RestOK; flows realised on a real store with gated replicator tasks; every individual SetMax/SetProgress recorded by a hook under its lock and checked; values compared with the specification after every settled step; reload from disk; SaveSnapshot and LoadFromSnapshot on a fresh instance.',
             'Bounds: <=4-6 local writes interleaved with a remote chain of 4-6 entries.', '6 C19'),
-    'C20': ('tla-transport', 'spec/Transport.tla (membership diff, message delivery, framing) model-checked; snapshot sequences (lists with duplicates) and interleaved publishes fed to the real pubsubcoreapi adapter through a scripted PubSubAPI with gated polls; pairwise channel over the same API (name symmetry for random peer ids, attribution, own messages); frames 0, 1, limit-1, limit, limit+1 and malformed frames over real libp2p streams (mocknet).',
-            'pubsubraw (gossipsub timing) is not driven; byte-exactness is checked on the concrete payloads.', '6 C20'),
+    'C20': ('tla-transport', 'spec/Transport.tla (membership diff, message delivery, framing) model-checked; snapshot sequences (lists with duplicates) and interleaved publishes fed to the real pubsubcoreapi adapter through a scripted PubSubAPI with gated polls; pairwise channel over the same API (name symmetry for random peer ids, attribution, own messages); frames 0, 1, limit-1, limit, limit+1 and malformed frames over real libp2p streams (mocknet); spec/TransportFlow.tla (wire, bounded channel, reader; mutant DropWhenFull refuted) replayed against a reader that stalls, scaled 1:64; the pubsubraw adapter run free over real gossipsub on a mock network, its reports recorded and validated by TLC against spec/TransportTrace.tla, with the local libp2p pubsub\'s own event tracer as ground truth for what was handed to subscribers.',
+            'pubsubraw is driven free-running (3 hosts, joins, leaves, publishes), not under scheduler control; byte-exactness is checked on the concrete payloads.', '6 C20'),
     'C01': ('tla-core', 'spec/Core.tla invariant Convergence model-checked exhaustively on a small configuration; TLC-simulated behaviours (arbitrary stale/duplicate head sets, restarts, final all-to-all sync) replayed on 3 real replicas of each store type with pairwise comparison of replicas holding equal entry sets; a copy of every replica that loads only a suffix of its log and then receives the older entries must equal the replica; recorded implementation traces validated against spec/CoreTrace.tla.',
             'Bounds: 3 replicas, 2 keys x 2 values, <=3 entries exhaustive, <=8 entries simulated.', '6 C01'),
     'C02': ('tla-system', 'spec/System.tla (writes, cuts, heals, dropped/duplicated/reordered announcements and exchanges, restarts, final phase) model-checked: Converged at rest (safety) and eventual delivery under fairness (liveness); simulated behaviours executed on 2-4 real replicas with every message and notification under driver control, conformance of logs and in-flight message set at every step, then the final phase run to rest in seeded random order and every replica compared with the acknowledged writes; TLC counterexamples of five trap properties (spec/SimSystem.tla, spec/SimSystemH.tla with history variables) supply shortest behaviours in which one particular mechanism (local heads, relay, heads after restart, a repeated exchange after loss or after a receiver restart) has to deliver an entry.',
